@@ -108,6 +108,68 @@ def gen_one_failure(rng):
     return ops
 
 
+APIS = 'istc'
+
+
+def gen_script_case(rng, throws=True):
+    """hook scripts: a hook of one module calls the API of itself / its parent / a sibling / the root / a free module,
+    adds a free module somewhere, or throws; then root calls as usual"""
+    n = rng.choice([2, 3, 4, 5, 6, 8])
+    lines, root, ids = gen_tree(rng, n, p_fail=rng.choice([0.0, 0.1, 0.25]))
+    free = [900 + k for k in range(rng.choice([0, 1, 2, 3]))]
+    # free-standing modules that scripts may add(): the config object of a root call is built when the call is made, so a
+    # module that joins the tree during that call has no key in it: give it no name, or a name with the key absent (cfg=0)
+    ops = list(lines) + ['new %d %s 0 %s %s' % (f, b(rng.random() < 0.35), b(rng.random() < 0.85), b(rng.random() < 0.85)) for f in free]
+    parent = {}
+    for l in lines:
+        w = l.split()
+        if w[0] == 'add':
+            parent[int(w[2])] = int(w[1])
+
+    def target(owner):
+        r = rng.random()
+        kids = [c for c, p in parent.items() if p == owner]
+        sibs = [c for c, p in parent.items() if owner in parent and p == parent[owner] and c != owner]
+        if r < 0.22: return owner
+        if r < 0.40 and owner in parent: return parent[owner]
+        if r < 0.55: return root
+        if r < 0.70 and sibs: return rng.choice(sibs)
+        if r < 0.82 and kids: return rng.choice(kids)
+        if r < 0.90 and free: return rng.choice(free)
+        return rng.choice(ids)
+
+    for _ in range(rng.choice([1, 1, 2, 3, 4])):
+        owner = rng.choice(ids + free[:1])
+        h = rng.choice(APIS)
+        acts = []
+        for _ in range(rng.choice([1, 1, 2, 3])):
+            r = rng.random()
+            if r < 0.62:
+                acts.append('c%s:%d' % (rng.choice(APIS), target(owner)))
+            elif r < 0.92 and free:
+                acts.append('a:%d:%d:%s' % (target(owner), rng.choice(free), b(rng.random() < 0.6)))
+            elif throws and h in 'is' and rng.random() < 0.5:
+                acts.append('x')
+            else:
+                acts.append('c%s:%d' % (rng.choice(APIS), owner))
+        ops.append('hook %d %s %s' % (owner, h, ' '.join(acts)))
+    seq = ['init', 'start', 'stop', 'cleanup'] if rng.random() < 0.5 else [rng.choice(CALLS) for _ in range(rng.choice([3, 5, 8]))]
+    if rng.random() < 0.4:
+        seq.insert(rng.randrange(len(seq) + 1), rng.choice(CALLS))
+    for c in seq:
+        ops.append('%s %d' % (c, root))
+        if rng.random() < 0.1:
+            ops.append('hook %d %s c%s:%d' % (rng.choice(ids), rng.choice(APIS), rng.choice(APIS), target(rng.choice(ids))))
+    # bring everything down while all modules still exist (no hook may fire inside a destructor), then destroy
+    for r_ in [root] + free:
+        ops.append('cleanup %d' % r_)
+    for r_ in [root] + free:
+        ops.append('cleanup %d' % r_)
+    for r_ in [root] + free:
+        ops.append('destroy %d' % r_)
+    return ops
+
+
 def gen_forest(rng):
     """several roots, adds across them (incl. refused ones), a pre-initialised subtree attached later"""
     ops = []
